@@ -476,7 +476,11 @@ def _bind_strict(ck: Check, prog: Program) -> None:
                             return False, f'`{par_param}` is splatted without having been tested to be {sorted(kinds)}'
                         seen_param = True
                     elif isinstance(v, (ast.Tuple, ast.List, ast.Dict)) and not getattr(v, 'elts', getattr(v, 'keys', [])):
-                        if not any(names and names <= kinds and not pol for names, pol in tests):
+                        disjoint_builtin = {'list', 'tuple', 'dict', 'str', 'bytes', 'set', 'frozenset', 'float'}
+                        # ... or `params` was positively tested to be of another builtin container type (these have no common instances)
+                        excluded_by_other = any(names and pol and names <= disjoint_builtin and kinds <= disjoint_builtin and not (names & kinds)
+                                                for names, pol in tests)
+                        if not excluded_by_other and not any(names and names <= kinds and not pol for names, pol in tests):
                             return False, f'the empty default `{norm(v)}` is used although `{par_param}` may be {sorted(kinds)}'
                         seen_empty = True
                     else:
